@@ -731,41 +731,91 @@ fn run_droprace(rounds: usize) -> String {
     "ok".to_string()
 }
 
-/// one metric is handed over; while the worker returns to its loop head a second one is emitted and the
-/// last handle dropped at once: both must be delivered, then the wrapped sink dropped
-fn run_emitdrop(rounds: usize) -> String {
-    let mut rng = Rng::new(rounds as u64 ^ env_seed());
-    for round in 0..rounds {
-        let coll = Arc::new(Collect { got: std::sync::Mutex::new(Vec::new()) });
-        let q = if round % 3 == 0 { QueuingMetricSink::from(CollSink(coll.clone())) } else { QueuingMetricSink::with_capacity(CollSink(coll.clone()), 1 + round % 3) };
-        if q.emit("first").is_err() {
-            return "first-emit-refused".to_string();
+/// the worker is held inside the wrapped sink with the first metric (queue empty), released, and after a
+/// few spins a second metric is emitted and the only handle dropped at once: both must be delivered before
+/// the wrapped sink is dropped.  `rounds` attempts on each of 8 threads, with varying delays on both sides.
+struct Probe {
+    ready: Arc<AtomicU64>,
+    go: Arc<AtomicU64>,
+    delay: u64,
+    seen: Arc<AtomicU64>,
+    dropped: std::sync::Mutex<std::sync::mpsc::Sender<u64>>,
+}
+impl MetricSink for Probe {
+    fn emit(&self, m: &str) -> io::Result<usize> {
+        if self.seen.fetch_add(1, Ordering::SeqCst) == 0 {
+            self.ready.store(1, Ordering::SeqCst);
+            while self.go.load(Ordering::SeqCst) == 0 {
+                std::hint::spin_loop();
+            }
+            for _ in 0..self.delay {
+                std::hint::spin_loop();
+            }
         }
-        // wait until the first metric has been handed over, then a short random spin so that the second emit
-        // lands at different points of the worker's way back to recv()
-        let t0 = Instant::now();
-        while coll.got.lock().unwrap().is_empty() && t0.elapsed() < Duration::from_secs(2) {
-            std::hint::spin_loop();
-        }
-        for _ in 0..rng.below(400) {
-            std::hint::spin_loop();
-        }
-        let second = q.emit("second").is_ok();
-        drop(q);
-        let want = if second { 2 } else { 1 };
-        let t0 = Instant::now();
-        while (Arc::strong_count(&coll) > 1 || coll.got.lock().unwrap().len() < want) && t0.elapsed() < Duration::from_millis(2000) {
-            std::thread::yield_now();
-        }
-        let n = coll.got.lock().unwrap().len();
-        if n < want {
-            return format!("accepted-metric-lost-when-the-last-handle-was-dropped-right-after-the-emit-round-{}", round);
-        }
-        if Arc::strong_count(&coll) > 1 {
-            return format!("wrapped-sink-not-released-round-{}", round);
-        }
+        Ok(m.len())
     }
-    "ok".to_string()
+}
+impl Drop for Probe {
+    fn drop(&mut self) {
+        let _ = self.dropped.lock().unwrap().send(self.seen.load(Ordering::SeqCst));
+    }
+}
+
+fn run_emitdrop(rounds: usize) -> String {
+    let failed: Arc<std::sync::Mutex<Option<String>>> = Arc::new(std::sync::Mutex::new(None));
+    let mut hs = Vec::new();
+    for t in 0..8u64 {
+        let failed = failed.clone();
+        hs.push(std::thread::spawn(move || {
+            let mut rng = Rng::new(env_seed() ^ (t + 1).wrapping_mul(0x9E37_79B9));
+            for round in 0..rounds {
+                if failed.lock().unwrap().is_some() {
+                    return;
+                }
+                let (ready, go, seen) = (Arc::new(AtomicU64::new(0)), Arc::new(AtomicU64::new(0)), Arc::new(AtomicU64::new(0)));
+                let (tx, rx) = std::sync::mpsc::channel();
+                let probe = Probe { ready: ready.clone(), go: go.clone(), delay: rng.below(64), seen: seen.clone(), dropped: std::sync::Mutex::new(tx) };
+                let q = match round % 3 {
+                    0 => QueuingMetricSink::from(probe),
+                    k => QueuingMetricSink::with_capacity(probe, k),
+                };
+                if q.emit("first").is_err() {
+                    *failed.lock().unwrap() = Some("first-emit-refused".to_string());
+                    return;
+                }
+                let t0 = Instant::now();
+                while ready.load(Ordering::SeqCst) == 0 && t0.elapsed() < Duration::from_secs(2) {
+                    std::hint::spin_loop();
+                }
+                let main_delay = rng.below(64);
+                go.store(1, Ordering::SeqCst);
+                for _ in 0..main_delay {
+                    std::hint::spin_loop();
+                }
+                let want = if q.emit("second").is_ok() { 2 } else { 1 };
+                drop(q);
+                match rx.recv_timeout(Duration::from_secs(3)) {
+                    Ok(n) if n == want => {}
+                    Ok(n) => {
+                        *failed.lock().unwrap() = Some(format!(
+                            "accepted-metric-lost-when-the-last-handle-was-dropped-right-after-the-emit:{}-accepted-{}-delivered-before-the-wrapped-sink-was-dropped",
+                            want, n
+                        ));
+                        return;
+                    }
+                    Err(_) => {
+                        *failed.lock().unwrap() = Some("wrapped-sink-not-released-after-emit-and-last-drop".to_string());
+                        return;
+                    }
+                }
+            }
+        }));
+    }
+    for h in hs {
+        let _ = h.join();
+    }
+    let r = failed.lock().unwrap().clone();
+    r.unwrap_or_else(|| "ok".to_string())
 }
 
 /// worker parked, queue full: refused emits must return promptly (they never wait for the worker)
@@ -1082,7 +1132,7 @@ fn main() {
         }
     }
     if SHARD_K.load(Ordering::Relaxed) == 1 % SHARD_N.load(Ordering::Relaxed) {
-        if let Some(l) = run_line(&format!("qemitdrop {}", if tier == "quick" { 20000 } else { 400000 })) {
+        if let Some(l) = run_line(&format!("qemitdrop {}", if tier == "quick" { 8000 } else { 100000 })) {
             writeln!(out, "{}", l).unwrap();
             extra += 1;
         }
